@@ -7,6 +7,12 @@ from hypothesis import HealthCheck, Phase, given, seed, settings
 
 from . import common
 
+try:   # bound the time Hypothesis spends shrinking one failure (default: 5 minutes)
+    import hypothesis.internal.conjecture.engine as _eng
+    _eng.MAX_SHRINKING_SECONDS = int(os.environ.get("VERIF_SHRINK_SECONDS", "90"))
+except Exception:   # pragma: no cover
+    pass
+
 
 class Violation(Exception):
     def __init__(self, desc, case, key=None):
